@@ -784,6 +784,7 @@ func (e *Engine) allocatedAssume(s *State, t types.Type, v Value) {
 		return
 	}
 	r := v[refAt]
+	noteQuantRefSlot(stripNilIte(r)) // the initial-heap closure axiom covers this slot function (term.go)
 	if r.K == KInt || r.K == KAlloc || r.K == KPlace || r.K == KFunc || isOldRef(r) {
 		return
 	}
